@@ -39,6 +39,9 @@ type msiResponse struct {
 	notFromL1 bool
 	// fromL1 means the line is already fetched, the core can read from L1
 	fromL1 bool
+	// exclusive means the lock taken for a read is the write lock (the core
+	// holds the line modified)
+	exclusive bool
 	// writeToL1 means the line is already fetched, the core can write to L1
 	writeToL1 bool
 }
@@ -156,7 +159,7 @@ func (m *msi) l1RLock(id int, addrs []int32) (msiResponse, func(), *comp.Sem) {
 		if !m.getL1Sem(addrs).Lock() {
 			return msiResponse{wait: true}, noop, nil
 		}
-		return msiResponse{fromL1: true}, func() {
+		return msiResponse{fromL1: true, exclusive: true}, func() {
 			m.getL1Sem(addrs).Unlock()
 		}, m.getL1Sem(addrs)
 	case shared:
